@@ -337,3 +337,81 @@ pub fn pair_compare(a: &Args) {
         println!("{}", json!({"equal": x == y, "a": x.to_json(), "b": y.to_json()}));
     }
 }
+
+fn fnv(s: &str) -> u64 {
+    let mut h: u64 = 0xcbf29ce484222325;
+    for b in s.bytes() {
+        h ^= b as u64;
+        h = h.wrapping_mul(0x100000001b3);
+    }
+    h
+}
+
+fn final_text(f: &Final) -> String {
+    match f {
+        Final::Rendered(s) => s.clone(),
+        Final::Err(k) => format!("err:{}", k),
+        Final::Panic => "panic".into(),
+    }
+}
+
+/// C05: the same documents rendered again and again (each HashMap instance gets a fresh RandomState) within
+/// one thread and across threads must give byte-identical output; prints one digest per case so that the
+/// driver can compare fresh processes as well
+pub fn c05(a: &Args) {
+    let cases = read_lines(&a.req("cases"));
+    let reps = a.num("reps", 16) as usize;
+    let threads = a.num("threads", 4) as usize;
+    let stride = a.num("stride", 1) as usize;
+    let mut mismatches = Vec::new();
+    let mut digests: Vec<String> = Vec::new();
+    let (mut sessions, mut runs) = (0usize, 0usize);
+    for (ci, c) in cases.iter().enumerate() {
+        if ci % stride != 0 || c["expect"]["st"] != "ok" {
+            continue;
+        }
+        let docs: Vec<(Vec<u8>, ReaderCfg)> = if c.get("docs").is_some() {
+            c["docs"].as_array().unwrap().iter().map(|d| (unhex(d["hex"].as_str().unwrap_or("")), cfg_from(&d["cfg"]))).collect()
+        } else {
+            c["calls"].as_array().unwrap().iter().map(|x| { let d = serialize_salted(x["events"].as_array().unwrap(), 0, 0); (d.bytes, d.cfg) }).collect()
+        };
+        sessions += 1;
+        let (base, _) = run_session(&docs, Feed::Whole);
+        let base_text = final_text(&base);
+        digests.push(format!("{:016x}", fnv(&base_text)));
+        let mut differing: Option<(String, String)> = None;
+        for _ in 0..reps {
+            let (f, _) = run_session(&docs, Feed::Whole);
+            runs += 1;
+            if f != base {
+                differing = Some(("repetition in the same thread".into(), final_text(&f)));
+                break;
+            }
+        }
+        if differing.is_none() && threads > 0 {
+            let handles: Vec<_> = (0..threads).map(|_| {
+                let d = docs.clone();
+                std::thread::spawn(move || final_text(&run_session(&d, Feed::Whole).0))
+            }).collect();
+            for h in handles {
+                runs += 1;
+                match h.join() {
+                    Ok(t) => {
+                        if t != base_text && differing.is_none() {
+                            differing = Some(("another thread".into(), t));
+                        }
+                    }
+                    Err(_) => differing = Some(("another thread".into(), "panic".into())),
+                }
+            }
+        }
+        if let Some((how, other)) = differing {
+            mismatches.push(json!({"kind": "repeat", "class": "c05", "how": how, "docs": docs_json(&docs),
+                                   "first": base_text, "other": other}));
+        }
+    }
+    if let Some(p) = a.get("digests") {
+        std::fs::write(p, digests.join("\n")).expect("write digests");
+    }
+    finish_report("c05", sessions, &mismatches, a.get("mismatches"), json!({"runs": runs, "applied": runs}));
+}
